@@ -295,4 +295,131 @@ theorem setFreq_call_in_trace {cfg : Cfg} {c : Ctrl} {msgs : List Msg} {b : Bool
   · cases h
   · cases h; exact mem_steerTrace ho hev
 
+/-! ### a handled measurement is always stored (C37, over the whole model) -/
+
+/-- everything of a snapshot except its Kalman state (which `progress_time` and steering adjust) -/
+def snapMeta (s : Snap) : Nat × Nat × F64 × F64 × Option F64 × Int × Int × Leap.LI :=
+  (s.idx, s.lastUpdate, s.wander, s.delay, s.period, s.srcUnc, s.srcDelay, s.leap)
+
+def entryMeta (p : Nat × Entry) :=
+  (p.1, p.2.usable, p.2.snap.map snapMeta)
+
+/-- key, usable flag and snapshot identity of every entry, in map order -/
+def metaOf (m : List (Nat × Entry)) := m.map entryMeta
+
+theorem metaOf_mapSnaps (m : List (Nat × Entry)) (f : Snap → Snap) (hf : ∀ s, snapMeta (f s) = snapMeta s) :
+    metaOf (mapSnaps m f) = metaOf m := by
+  simp only [metaOf, mapSnaps, List.map_map]
+  apply List.map_congr_left
+  intro p _
+  obtain ⟨k, e⟩ := p
+  cases hs : e.snap <;> simp [entryMeta, hs, hf]
+
+theorem offsetSteerAll_meta {m m' : List (Nat × Entry)} {ch : F64} (h : offsetSteerAll m ch = some m') :
+    metaOf m' = metaOf m := by
+  unfold offsetSteerAll at h
+  split at h
+  · split at h
+    · cases h; rfl
+    · cases h
+  · cases h
+    apply metaOf_mapSnaps
+    intro s
+    split <;> rfl
+
+theorem bookkeep_meta {m m' : List (Nat × Entry)} {ch fo : F64} {ft : Nat} {evs : List Steer.Ev}
+    {sm : Option SrcMsg} {nu : Option Nat} (h : bookkeep m ch fo ft evs = some (m', sm, nu)) :
+    metaOf m' = metaOf m := by
+  induction evs generalizing m m' sm nu with
+  | nil => simp only [bookkeep, Option.some.injEq, Prod.mk.injEq] at h; rw [← h.1]
+  | cons ev r ih =>
+    cases ev with
+    | disable => exact ih h
+    | step d =>
+      simp only [bookkeep] at h
+      split at h
+      · cases h
+      · rename_i m1 h1
+        split at h
+        · cases h
+        · rename_i m2 sm2 nu2 h2
+          simp only [Option.some.injEq, Prod.mk.injEq] at h
+          rw [← h.1, ih h2, offsetSteerAll_meta h1]
+    | setFreq f =>
+      simp only [bookkeep] at h
+      split at h
+      · cases h
+      · rename_i m2 sm2 nu2 h2
+        simp only [Option.some.injEq, Prod.mk.injEq] at h
+        rw [← h.1, ih h2]
+        exact metaOf_mapSnaps _ _ (fun _ => rfl)
+    | slew a b =>
+      simp only [bookkeep] at h
+      split at h
+      · cases h
+      · rename_i m2 sm2 nu2 h2
+        simp only [Option.some.injEq, Prod.mk.injEq] at h
+        rw [← h.1, ih h2]
+
+/-- `update_clock` never changes which measurement is stored for which source, nor the usable flags -/
+theorem updateClock_meta (cfg : Cfg) (c : Ctrl) (time ft : Nat) :
+    metaOf (updateClock cfg c time ft).ctrl.srcs = metaOf c.srcs := by
+  have hp : metaOf (mapSnaps c.srcs fun s => { s with k := progressTimeP s.k time s.wander s.period })
+      = metaOf c.srcs := metaOf_mapSnaps _ _ (fun _ => rfl)
+  unfold updateClock
+  split
+  · rfl
+  · simp only []
+    split
+    · exact hp
+    · split
+      · exact hp
+      · exact hp
+      · split
+        · split
+          · exact hp
+          · rename_i hb
+            split
+            · simp only []; rw [bookkeep_meta hb, hp]
+            · simp only []; rw [bookkeep_meta hb, hp]
+        · exact hp
+
+/-- `update_clock`'s first test on a map: some stored snapshot is ahead of `time` -/
+def ahead (m : List (Nat × Entry)) (time : Nat) : Bool :=
+  (snaps m).any (fun s => SourceFilter.tsSub time s.k.time < 0)
+
+/-- the map after `source.0 = Some(message.inner)` -/
+def storeMsg (m : List (Nat × Entry)) (id : Nat) (snap : Snap) : List (Nat × Entry) :=
+  modify m id (fun e => { e with snap := some snap })
+
+/-- **a handled measurement is always stored**: for a registered id, after `source_message` the map holds, entry
+    by entry, the same measurements (everything but the Kalman state) and usable flags as the map with the
+    message stored — whatever the other sources' time stamps are; and if another stored snapshot is ahead
+    of the message's time (early return of `update_clock`) the map is EXACTLY that one, nothing reaches the
+    clock and no `used_sources` is published. -/
+theorem message_always_stored (cfg : Cfg) (c : Ctrl) (id : Nat) (snap : Snap) (ft : Nat)
+    (hk : hasKey c.srcs id = true) :
+    let o := step cfg c (.source id snap ft)
+    metaOf o.ctrl.srcs = metaOf (storeMsg c.srcs id snap) ∧
+    (ahead (storeMsg c.srcs id snap) snap.lastUpdate = true →
+      o.ctrl.srcs = storeMsg c.srcs id snap ∧ o.calls = [] ∧ o.fin = .ok ∧ o.pub.used = none ∧
+      o.pub.srcMsg = none) := by
+  simp only [step, hk, if_true]
+  refine ⟨updateClock_meta cfg _ _ _, ?_⟩
+  intro ha
+  unfold updateClock
+  simp only [ahead, storeMsg] at ha
+  simp [ha, storeMsg, Pub.none]
+
+/-- the stored entry of the source itself: the message's identity and stamp, usable flag untouched -/
+theorem message_entry_stored (cfg : Cfg) (c : Ctrl) (id : Nat) (snap : Snap) (ft : Nat) (e : Entry)
+    (he : (id, e) ∈ c.srcs) :
+    (id, e.usable, some (snapMeta snap)) ∈ metaOf (step cfg c (.source id snap ft)).ctrl.srcs := by
+  have hk : hasKey c.srcs id = true := by
+    simp only [hasKey, List.any_eq_true]
+    exact ⟨(id, e), he, by simp⟩
+  rw [(message_always_stored cfg c id snap ft hk).1]
+  simp only [metaOf, storeMsg, modify, List.map_map, List.mem_map]
+  exact ⟨(id, e), he, by simp [entryMeta]⟩
+
 end NtpVerif.Controller
